@@ -50,6 +50,17 @@ def sem_equation_ok(F):
     return len(eq) >= 2 and all(st == "ok" for st in eq)
 
 
+def sem_strict_ok(F):
+    """the strict clauses of every strict verifier present hold semantically (SigningKey::verify_strict forwards to VerifyingKey::verify_strict)"""
+    rs = sem_results(F)
+    need = 2 if F.has_cfg("feature=digest") else 1
+    for clause in ("reject_R", "reject_small_order", "small_order_args"):
+        sts = [st for entry, c, f, st, msg in rs if c == clause and entry.endswith("strict")]
+        if len(sts) < need or not all(st == "ok" for st in sts):
+            return False
+    return True
+
+
 def sem_challenge_ok(F):
     rs = sem_results(F)
     eq = [st for entry, clause, f, st, msg in rs if clause.startswith("equation")]
@@ -75,7 +86,7 @@ def semantic(F, R, I, legacy):
             R.anchor_missing("C09.sem", inst, msg)
         else:
             R.note("C09.sem %s inconclusive (%s): the structural rules decide" % (inst, msg[:160]))
-    R.floor("C09.sem", I("verification clauses decided on symbolic inputs"), n, (9 if legacy else 11) + (10 if F.has_cfg("feature=digest") else 0))
+    R.floor("C09.sem", I("verification clauses decided on symbolic inputs"), n, (9 if legacy else 11) + (13 if F.has_cfg("feature=digest") else 0))
 
 
 def check_cfg(F, R, cfg, legacy):
@@ -167,6 +178,9 @@ def check_cfg(F, R, cfg, legacy):
                     and (32, 64) in sl_s and (0, 32) in sl_R
                 msg = "s <- check_scalar(bytes[32..64]) and R <- bytes[0..32]" if good else \
                     "InternalSignature fields not built from R=bytes[0..32], s=check_scalar(bytes[32..64]); ranges seen: R %s, s %s" % (sorted(sl_R), sorted(sl_s))
+            if not good and sem_equation_ok(F):
+                good, msg = True, ("structural form not recognised; decided by C09.sem: every verification equation compares with signature bytes [0..32] as R and uses the "
+                                   "scalar decoded from signature bytes [32..64] as s")
             (R.ok if good else R.viol)("C09.split", I("InternalSignature::from_bytes"), msg, *(() if good else (fv.loc(),)))
     if try_from and from_bytes:
         fv = view(F, try_from)
@@ -232,6 +246,13 @@ def check_cfg(F, R, cfg, legacy):
         if "strict" in f.get("name", ""):
             for rule, g in (("C09.strict.R_decodes", G_Rdec), ("C09.strict.R_small_order", G_Rsmall), ("C09.strict.A_small_order", G_Asmall)):
                 ok, why = established(F, f, [g], memo={})
+                covered = re.search(r"verifying::VerifyingKey::verify_(prehashed_)?strict$", f["path"]) or \
+                    re.search(r"-> ed25519_dalek::verifying::VerifyingKey::verify_(prehashed_)?strict:", why or "")
+                if not ok and covered and sem_strict_ok(F):
+                    # the dominance form is not recognised (e.g. the strict tests were moved into a helper): the behaviour is decided by C09.sem
+                    R.ok(rule, I(nm), "structural form not recognised; decided by C09.sem: in verify_strict and verify_prehashed_strict an undecodable R, a small-order R and a "
+                         "small-order A each give Err only, and is_small_order is applied to the decoded R and to A")
+                    continue
                 (R.ok if ok else R.viol)(rule, I(nm), ("every Ok exit dominated by: " + g.name) if ok else why, *(() if ok else (fv.loc(),)))
     stricts = [f for f in entries if "strict" in f.get("name", "")]
     R.floor("C09.entries", I("strict entry points"), len(stricts), 3)
@@ -344,30 +365,51 @@ def last_field(e):
 
 
 def legacy_mask_test(e):
-    """Match  ((arg1[31] & 224) != 0)  or  == 0  on the input bytes; returns the discriminant value meaning
+    """The discriminant is a pure function of input byte 31 (arg1[31]) and constants whose truth table over the 256 byte values is that of
+    `(b & 224) == 0` (or its negation): `(b & 224) != 0`, `b >> 5 != 0`, `b < 32`, `b & 0xe0 == 0`, ... ; returns the discriminant value meaning
     'high three bits clear', else None."""
-    e = ex.strip(e)
-    if not (isinstance(e, tuple) and e[0] == "bin" and e[1] in ("Ne", "Eq")):
+    def ev(x, b):
+        x = ex.strip(x)
+        if not isinstance(x, tuple):
+            raise ValueError
+        if x[0] == "const" and isinstance(x[1], int) and not isinstance(x[1], bool):
+            return x[1]
+        if x[0] == "const" and isinstance(x[1], bool):
+            return int(x[1])
+        if x[0] == "idx" and ex.is_arg(x[1], 1, "") and ex.is_const(x[2], 31):
+            return b
+        if x[0] == "un" and x[1] == "Not":
+            v = ev(x[2], b)
+            return 1 - v if v in (0, 1) else (~v) & 0xff
+        if x[0] == "cast":
+            return ev(x[-1], b)
+        if x[0] == "bin":
+            p, q = ev(x[2], b), ev(x[3], b)
+            op = x[1].replace("Unchecked", "").replace("WithOverflow", "")
+            if op == "BitAnd": return p & q
+            if op == "BitOr": return p | q
+            if op == "BitXor": return p ^ q
+            if op == "Shr": return p >> q
+            if op == "Shl": return (p << q) & 0xff
+            if op == "Eq": return int(p == q)
+            if op == "Ne": return int(p != q)
+            if op == "Lt": return int(p < q)
+            if op == "Le": return int(p <= q)
+            if op == "Gt": return int(p > q)
+            if op == "Ge": return int(p >= q)
+            if op == "Div" and q: return p // q
+        raise ValueError
+    try:
+        tt = [ev(e, b) for b in range(256)]
+    except (ValueError, TypeError, IndexError):
         return None
-    a, b = ex.strip(e[2]), ex.strip(e[3])
-    if ex.is_const(b, 0):
-        m = a
-    elif ex.is_const(a, 0):
-        m = b
-    else:
-        return None
-    if not (isinstance(m, tuple) and m[0] == "bin" and m[1] == "BitAnd"):
-        return None
-    x, y = ex.strip(m[2]), ex.strip(m[3])
-    if ex.is_const(y, 224):
-        byte = x
-    elif ex.is_const(x, 224):
-        byte = y
-    else:
-        return None
-    if not (isinstance(byte, tuple) and byte[0] == "idx" and ex.is_arg(byte[1], 1, "") and ex.is_const(byte[2], 31)):
-        return None
-    return 0 if e[1] == "Ne" else 1
+    clear = [int((b & 224) == 0) for b in range(256)]
+    if set(tt) <= {0, 1}:
+        if tt == clear:
+            return 1
+        if tt == [1 - c for c in clear]:
+            return 0
+    return None
 
 
 def slice_ranges(fv, e):
